@@ -379,7 +379,18 @@ def observe(case):
             if case.get("via_rename"):
                 j, old = case["via_rename"]
                 t = _mk_table([dict(c, name=old) if q == j else c for q, c in enumerate(case["cols"])])
-                t.cols()[j].name = case["cols"][j]["name"]
+                # the table is USED under its old names first (the very selection, by every old name, by all of them at once):
+                # whatever that leaves behind must not outlive the rename
+                new = case["cols"][j]["name"]
+                K0 = case["key"]
+                olds = [old if n == new else n for n in (K0[1] if K0[0] == "names" else [K0[1]] if K0[0] == "name" else [])]
+                for probe in ([lambda: t[_mk_tkey(K0)]] + [lambda: t[tuple(olds)], lambda: t[olds[0]] if olds else None]
+                              + [lambda: t[tuple(c.name for c in t.cols() if c.name is not None)]]):
+                    try:
+                        probe()
+                    except Exception:                        # noqa: BLE001
+                        pass
+                t.cols()[j].name = new
             else:
                 t = _mk_table(case["cols"])
             key = _mk_tkey(case["key"])
